@@ -24,7 +24,7 @@ RULE = ("seeded random (brightness in {0,tiny,random,1}, purity in (0.5,1] incl.
         "lossy?, backend, threshold?, heralded?); non-trivial = at least one non-ideal parameter")
 MANDATORY = ["all_three_nonideal_3photons", "bunched_impure", "lossy_dim", "threshold", "slos", "permanent",
              "g2_checked", "hom_checked", "perfect_checked", "classical_checked", "herald_photons",
-             "source_retuned_by_tiny_amount", "dim_source_3photons"]
+             "source_retuned_by_tiny_amount", "dim_source_3photons", "sampler_moved_to_other_input_herald"]
 DECIDING = ["mon.source_stats_postconditions", "mon.sampler_source_postconditions"]
 BUDGET = {"quick": 30, "thorough": 480}
 ASSUMPTIONS = ["reference = generative emission model (pair probability from g2 = 1 - purity, independent survival "
@@ -172,6 +172,30 @@ def run(ctx):
                 _ = smp.probability_distribution        # the post-condition monitor recomputes the reference
             except Exception as e:  # noqa: BLE001
                 ctx.count("retune_raised:" + type(e).__name__)
+        if dist is not None and not thr and rng.random() < 0.3 and k >= 1:
+            # identical components, same number of non-heralded modes, but a herald photon (or not) on an extra mode
+            try:
+                pair = []
+                for ph in (0, 1):
+                    cc = lw.Circuit(k + 1)
+                    for a_, r_ in [(int(rng.integers(max(k, 1))), float(rng.uniform(0.2, 0.8))) for _ in range(3)]:
+                        if k + 1 >= 2:
+                            cc.bs(a_ % k, a_ % k + 1, r_)
+                    pair.append(cc)
+                steps_ = pair[0]._get_circuit_spec()
+                pair[1] = lw.Circuit(k + 1)
+                for sp in steps_:
+                    pair[1].bs(sp.mode_1, sp.mode_2, sp.reflectivity)
+                hm = int(rng.integers(k + 1))
+                pair[0].herald(0, hm)
+                pair[1].herald(1, hm)
+                smp.circuit = pair[0]
+                _ = smp.probability_distribution
+                smp.circuit = pair[1]
+                _ = smp.probability_distribution          # the monitor recomputes the mixture for the new heralds
+                ctx.bucket("sampler_moved_to_other_input_herald")
+            except Exception as e:  # noqa: BLE001
+                ctx.count("herald_swap_raised:" + type(e).__name__)
         key = (nonideal, bunched, sum(full_occ), n_loss > 0, backend, bool(thr), bool(hph))
         ctx.case(key, any(nonideal), sample=case)
         drain_into(ctx, case)
